@@ -9,6 +9,15 @@ use std::sync::{Mutex, OnceLock};
 use std::time::Instant;
 
 pub const VERIF_DIR: &str = "/verif";
+/// Where KNOWN_FINDINGS.txt is read and evidence / replay files are written: /verif, unless the
+/// development aid tools/rerun_seeded.sh runs the harness from a scratch copy (PBMC_VERIF_DIR).
+pub fn verif_dir() -> String {
+    std::env::var("PBMC_VERIF_DIR").unwrap_or_else(|_| VERIF_DIR.to_string())
+}
+/// Path prefix of the library under test in panic locations (/repo/ unless PBMC_REPO_DIR is set).
+pub fn repo_prefix() -> String {
+    format!("{}/", std::env::var("PBMC_REPO_DIR").unwrap_or_else(|_| "/repo".to_string()))
+}
 
 #[derive(Debug, Clone, Copy, PartialEq, Eq)]
 pub enum Tier {
@@ -68,7 +77,7 @@ pub fn init_ctx(prop: &str, tier: Tier) -> &'static Ctx {
         .unwrap_or(0);
     let mut known = vec![];
     let mut fixed = vec![];
-    let kf = std::fs::read_to_string(format!("{VERIF_DIR}/KNOWN_FINDINGS.txt")).unwrap_or_default();
+    let kf = std::fs::read_to_string(format!("{}/KNOWN_FINDINGS.txt", verif_dir())).unwrap_or_default();
     for line in kf.lines() {
         let line = line.trim();
         if line.is_empty() || line.starts_with('#') {
@@ -221,7 +230,7 @@ pub fn finish(ev: Evidence) -> ! {
     let witnesses = c.witnesses.lock().unwrap().clone();
 
     // Replay files for violations
-    let dir = format!("{VERIF_DIR}/replays/{}", c.prop);
+    let dir = format!("{}/replays/{}", verif_dir(), c.prop);
     let _ = std::fs::create_dir_all(&dir);
     let mut vio_lines = vec![];
     for (i, (sig, f)) in violations.iter().enumerate() {
@@ -287,8 +296,8 @@ pub fn finish(ev: Evidence) -> ! {
         "wall_s": wall,
         "violations": violations.len(),
     });
-    let _ = std::fs::create_dir_all(format!("{VERIF_DIR}/evidence"));
-    let evpath = format!("{VERIF_DIR}/evidence/{}.json", c.prop);
+    let _ = std::fs::create_dir_all(format!("{}/evidence", verif_dir()));
+    let evpath = format!("{}/evidence/{}.json", verif_dir(), c.prop);
     std::fs::write(&evpath, serde_json::to_string_pretty(&doc).unwrap()).expect("write evidence");
 
     for (sig, (f, n)) in known_hits.iter() {
@@ -363,9 +372,9 @@ fn install_panic_hook() {
             // execution it happened in belongs to that property's domain) with the panic as the
             // replay artefact; a panic raised in harness code is a machinery failure, never a verdict.
             if let Some(c) = CTX.get() {
-                if file.starts_with("/repo/") {
+                if file.starts_with(&repo_prefix()) {
                     let pi = PanicInfo { msg: msg.clone(), file: file.clone(), line };
-                    let dir = format!("{VERIF_DIR}/replays/{}", c.prop);
+                    let dir = format!("{}/replays/{}", verif_dir(), c.prop);
                     let _ = std::fs::create_dir_all(&dir);
                     let path = format!("{dir}/violation_{}_unguarded_panic.json", c.tier.name());
                     let sig = format!("{}.library_panic_outside_guard.{}", c.prop.to_lowercase(), pi.sig());
@@ -444,7 +453,7 @@ fn start_watchdog() {
                 if s.elapsed().as_secs() >= HANG_SECS {
                     let case = g.case.as_ref().map(|c| c()).unwrap_or(Value::Null);
                     let c = ctx();
-                    let dir = format!("{VERIF_DIR}/replays/{}", c.prop);
+                    let dir = format!("{}/replays/{}", verif_dir(), c.prop);
                     let _ = std::fs::create_dir_all(&dir);
                     let path = format!("{dir}/hang_{}.json", c.tier.name());
                     let body = json!({"property": c.prop, "signature": "hang", "detail": "a library call did not return within 20 s", "replay": case});
@@ -455,7 +464,7 @@ fn start_watchdog() {
                         "coverage": {"evaluations": 1, "distinct_nontrivial": 2, "rule": "aborted by hang watchdog", "samples": [case], "exhaustive": false},
                         "wall_s": c.elapsed(), "violations": 1
                     });
-                    let _ = std::fs::write(format!("{VERIF_DIR}/evidence/{}.json", c.prop), serde_json::to_string_pretty(&doc).unwrap());
+                    let _ = std::fs::write(format!("{}/evidence/{}.json", verif_dir(), c.prop), serde_json::to_string_pretty(&doc).unwrap());
                     println!("VIOLATION property={} replay={} sig=hang :: library call did not return within {}s", c.prop, path, HANG_SECS);
                     std::process::exit(1);
                 }
